@@ -33,7 +33,7 @@ impl PhasedEval {
         let phase_value = i64::from(phase_value);
 
         let midgame_phase_value = phase_value.min(PHASE_COUNT_MAX);
-        let endgame_phase_value = PHASE_COUNT_MAX - phase_value;
+        let endgame_phase_value = PHASE_COUNT_MAX - midgame_phase_value;
 
         let midgame_eval = i64::from(self.midgame().0);
         let endgame_eval = i64::from(self.endgame().0);
